@@ -11,14 +11,22 @@ SPEC = dict(
     rule="mode '': random sizes (0.2..2) and random rigid poses for every registered pair of "
          "CollisionDetectionAlgorithm (half space/sphere, sphere/sphere, half space/ellipsoid, ellipsoid/sphere, "
          "ellipsoid/ellipsoid, half space/mesh, sphere/mesh) with the overlap amount drawn on both sides of touching, "
-         "plus both add orders through GeneralContactSubsystem; mode 'degenerate': near-touching at +-1e-6 and +-1e-8, "
+         "plus both add orders through GeneralContactSubsystem, the ContactTrackerSubsystem path (hs/sph, sph/sph, hs/ell, "
+         "hs/brick) and 3-5 surfaces in one contact set; ellipsoid/sphere up to the sphere centre inside the ellipsoid "
+         "(class centre_inside); mode 'degenerate': near-touching at +-1e-6 and +-1e-8, "
          "deep / contained / concentric, identity frames, ellipsoid pairs in arbitrary (deep) placement, fixed witnesses; "
          "distinct = distinct input records",
-    partial="half space/sphere, sphere/sphere, half space/ellipsoid and the order dispatch are modelled and proved "
-            "(contact iff overlap, exact depth/normal/point, swap symmetry, rigid-motion invariance); ConvexConvex "
-            "(MPR + Newton; ellipsoid/sphere, ellipsoid/ellipsoid) and the mesh pairs are decided by implementation-side "
-            "contract predicates only (point pair on both surfaces, normal alignment, penetration, exact geometry for "
-            "ellipsoid/sphere, brute force over faces for meshes); mesh/mesh and the ContactTracker classes are not "
-            "exercised; the relative radii of curvature are mirrored by the model but no theorem is claimed about them",
+    partial="(i) PROVED about the executed model: half space/sphere, sphere/sphere, half space/ellipsoid "
+            "(contact iff overlap, exact depth/normal/point, rigid-motion invariance), sphere/sphere swap, and the order dispatch "
+            "`detect` (swap symmetry for hs/sph, sph/sph, hs/ell in both orders; for ellipsoid/sphere and ellipsoid/ellipsoid the "
+            "swap theorem is CONDITIONAL on the explicit hypothesis `ConvexContract` about the un-modelled ConvexConvex routine, "
+            "which the harness tests and which fails for deep overlaps = known finding). (ii) PREDICATE ONLY (implementation "
+            "side, independent reference): ConvexConvex (KKT contract on the reported point pair, sampled separation; exact "
+            "depth/normal/point for ellipsoid/sphere only with the centre outside), half space/mesh and sphere/mesh (brute force "
+            "over faces, contact object, rigid motion, add order; icosphere/box/torus meshes), the ContactTrackerSubsystem path "
+            "for hs/sph, sph/sph, hs/ell, hs/brick (both body placements), several surfaces in one set (pair set, no duplicates). "
+            "(iii) NOT COVERED: TriangleMesh/TriangleMesh, ContactTracker::ConvexImplicitPair / HalfSpaceConvexImplicit / mesh "
+            "trackers, Contact::Condition bookkeeping across steps; the relative radii of curvature are mirrored by the model "
+            "(bit-for-bit tie) but no theorem is claimed about them",
     assumptions=["libm sqrt is trusted (SqrtSpec)", "rotations enter the theorems through orthonormality of rows and columns (IsRot)"],
 )
